@@ -91,5 +91,87 @@ void h_nonpos(void) { const double *W; size_t m, g0; _Bool r = has_nonpos(W, m, 
     return spec
 
 
+def _multi_unit(maxn=5, bounded=False):
+    """has_multiple_edges: true iff some vertex lists the same opposite endpoint at two different out-edge slots.  Loop contracts
+    with invariants quantified over the bounded vertex / slot range; std::set<Vertex> neighbors is a boolean table reset per vertex."""
+    from units.k17b_bfs import _fresh
+    log = []
+    text = X.src("include/parmcb/util.hpp")
+    body = X.body_after(text, r"bool has_multiple_edges\(const Graph &g\)\s*", "has_multiple_edges")
+    body = X.canon(body, [(r"auto (\w+) = boost::vertices\(g\);", ["vRange"]), (r"for \(auto (\w+) = vRange\.first;", ["vit"]), (r"auto (\w+) = \*vit;", ["v"]),
+                          (r"std::set<Vertex> (\w+);", ["neighbors"]), (r"auto (\w+) = boost::out_edges\(v, g\);", ["eRange"]),
+                          (r"for \(auto (\w+) = eRange\.first;", ["eit"]), (r"auto (\w+) = boost::opposite\(e, v, g\);", ["u"])], log)
+    body = X.rewrite(body, [
+        (r"typedef typename [^;]*;", "", (0, 2), "drop", "typedefs"),
+        (r"auto vRange = boost::vertices\(g\);", "", 1, "container-api", "vertex range = ordinals 0..n"),
+        (r"for \(auto vit = vRange\.first; vit != vRange\.second; vit\+\+\)", "for (size_t vit = 0; vit != vp_n; vit++)", 1, "container-api", ""),
+        (r"auto v = \*vit;", "size_t v = vit;", 1, "container-api", ""),
+        (r"std::set<Vertex> neighbors;", "nb_clear();", 1, "container-api", "std::set<Vertex> -> boolean table, empty"),
+        (r"auto eRange = boost::out_edges\(v, g\);", "size_t eRange_second = DEG[v];", 1, "container-api", "out_edges(v,g) = slots 0..DEG[v]"),
+        (r"for \(auto eit = eRange\.first; eit != eRange\.second; eit\+\+\)", "for (size_t eit = 0; eit != eRange_second; eit++)", 1, "container-api", ""),
+        (r"auto e = \*eit;", "", 1, "container-api", "the edge descriptor is only used to find the opposite endpoint"),
+        (r"auto u = boost::opposite\(e, v, g\);", "size_t u = ADJ[v][eit];", 1, "container-api", "opposite endpoint of the out-edge at this slot"),
+        (r"!neighbors\.insert\(u\)\.second", "vp_insert(neighbors, u)", 1, "container-api", "insert reports an element that was already there"),
+        (r"return true;", "{ vp_wv = v; vp_wj = eit; return 1; }", 1, "ghost", "ghost: witness vertex and slot"),
+        (r"return false;", "return 0;", 1, "type-binding", ""),
+    ], log)
+    nodup_v = "ALLJ(qa, ALLJ2(qb, (qa < qb && qb < DEG[qv]) ==> ADJ[qv][qa] != ADJ[qv][qb]))"
+    inv_outer = ("__CPROVER_assigns(vit, vp_wv, vp_wj, __CPROVER_object_whole(neighbors))\n"
+                 "__CPROVER_loop_invariant(vit <= vp_n && ALLV(qv, qv < vit ==> %s))\n__CPROVER_decreases(vp_n - vit)" % nodup_v)
+    inv_fill = ("__CPROVER_assigns(z_, __CPROVER_object_whole(neighbors))\n__CPROVER_loop_invariant(z_ <= MAXN && ALLX(qx, qx < z_ ==> !neighbors[qx]))\n__CPROVER_decreases(MAXN - z_)")
+    inv_inner = ("__CPROVER_assigns(eit, vp_wv, vp_wj, __CPROVER_object_whole(neighbors))\n"
+                 "__CPROVER_loop_invariant(eit <= eRange_second && eRange_second == DEG[v] && v < vp_n"
+                 " && ALLX(qx, (!neighbors[qx]) == !SEEN(v, eit, qx))"
+                 " && ALLJ(qa, ALLJ2(qb, (qa < qb && qb < eit) ==> ADJ[v][qa] != ADJ[v][qb])))\n"
+                 "__CPROVER_decreases(eRange_second - eit)")
+    if not bounded:
+        body = X.splice_loop_contracts(body, {0: inv_outer, 1: inv_inner}, log)
+    fn = r"""
+#include <stddef.h>
+typedef _Bool bool;
+#define MAXN %(MAXN)d
+#define MAXD (MAXN + 1)
+size_t vp_n, DEG[MAXN], ADJ[MAXN][MAXD], vp_wv, vp_wj;
+#define ALLV(v, body) __CPROVER_forall { size_t v; (v < MAXN) ==> ((v < vp_n) ==> (body)) }
+#define ALLJ(j, body) __CPROVER_forall { size_t j; (j < MAXD) ==> (body) }
+#define ALLJ2(j, body) __CPROVER_forall { size_t j; (j < MAXD) ==> (body) }
+#define ALLX(x, body) __CPROVER_forall { size_t x; (x < MAXN) ==> (body) }
+#define SEEN(v, lim, x) (%(SEEN)s)      /* x occurs at a slot below lim of v's list */
+bool neighbors[MAXN];                /* std::set<Vertex> neighbors (a fresh, empty set per vertex) */
+void nb_clear(void)
+__CPROVER_assigns(__CPROVER_object_whole(neighbors))
+__CPROVER_ensures(__CPROVER_forall { size_t cz; (cz < MAXN) ==> !neighbors[cz] })
+;
+static bool vp_insert(bool *s, size_t u) { bool there = s[u]; s[u] = 1; return there; }      /* !insert(u).second */
+bool has_multiple_edges(void)
+__CPROVER_requires(vp_n <= MAXN && ALLV(ra, DEG[ra] <= MAXD && ALLJ(rj, rj < DEG[ra] ==> ADJ[ra][rj] < vp_n)))
+__CPROVER_assigns(vp_wv, vp_wj, __CPROVER_object_whole(neighbors))
+/* false => no vertex lists an endpoint twice; true => the witness slot repeats an earlier slot of the same vertex */
+__CPROVER_ensures(!__CPROVER_return_value ==> ALLV(pa, ALLJ(pb, ALLJ2(pc, (pb < pc && pc < DEG[pa]) ==> ADJ[pa][pb] != ADJ[pa][pc]))))
+__CPROVER_ensures(__CPROVER_return_value ==> (vp_wv < vp_n && vp_wj < DEG[vp_wv] && SEEN(vp_wv, vp_wj, ADJ[vp_wv][vp_wj])))
+{%(BODY)s}
+size_t vp_in_n;
+void h_multi(void) {
+  vp_in_n = vp_n;
+  bool r = has_multiple_edges();
+  __CPROVER_assert(0, "VP_REACH end of harness");
+}
+""" % dict(MAXN=maxn, BODY=body, SEEN=" || ".join("(%d < (lim) && ADJ[v][%d] == (x))" % (j, j) for j in range(maxn + 1)))
+    if bounded:
+        txt = _fresh(fn).replace("void nb_clear(void)\n__CPROVER_assigns(__CPROVER_object_whole(neighbors))\n__CPROVER_ensures(__CPROVER_forall { size_t cz; (cz < MAXN) ==> !neighbors[cz] })\n;",
+                                 "void nb_clear(void) { for (size_t cz = 0; cz < MAXN; cz++) neighbors[cz] = 0; }")
+        txt = X.plain_harness(txt, "bool has_multiple_edges(void)", "void h_multi(void)", "has_multiple_edges()", ret=("bool", "r"), pre_call="  vp_in_n = vp_n;\n")
+        return dict(unit="K25_has_multiple_edges_bounded", site="K25_has_multiple_edges", lang="c", source="include/parmcb/util.hpp has_multiple_edges", text=txt, entry="h_multi",
+                    rewrites=log, timeout=600, unwind=maxn + 3, mode="bounded", flags=["--nondet-static"], bound="n <= %d, out-degree <= %d, loops unwound; the contract as assume/assert" % (maxn, maxn + 1),
+                    functions={"has_multiple_edges": "bounded(n<=%d)" % maxn}, trusted=["cbmc 6.11 SAT back end"])
+    return dict(unit="K25_has_multiple_edges", site="K25_has_multiple_edges", lang="c", source="include/parmcb/util.hpp has_multiple_edges", text=_fresh(fn), entry="h_multi",
+                fallback=lambda: _multi_unit(3, True),
+                enforce="has_multiple_edges", replace=["nb_clear"], rewrites=log, timeout=900, flags=["--object-bits", "12"], unwind=16, loop_contracts=True, mode="proof", split=4,
+                bound="proved(n<=%d, out-degree<=%d): loops closed by loop contracts with invariants quantified over the vertex / slot range" % (maxn, maxn + 1),
+                dropped=["template header; typedef"], functions={"has_multiple_edges": "proved(n<=%d)" % maxn},
+                assumptions=["boost::vertices / out_edges / opposite bound to ordinals and an adjacency table; std::set<Vertex> to a boolean table"],
+                trusted=["cbmc 6.11 + DFCC, SAT back end (bounded quantifier instantiation)"])
+
+
 def units(tier):
-    return [X.guarded("K25_has_loops", _loops_unit), X.guarded("K25_has_non_positive_weights", _nonpos_unit)]
+    return [X.guarded("K25_has_loops", _loops_unit), X.guarded("K25_has_non_positive_weights", _nonpos_unit), X.guarded("K25_has_multiple_edges", _multi_unit, 5)]
